@@ -370,11 +370,15 @@ where
 
 /// Compute error signal from `QuantizedParameters`.
 ///
+/// Returns `false` if some error value does not fit in the range of FLAC
+/// residuals (`-i32::MAX..=i32::MAX`). The content of `errors` is not usable
+/// in that case.
+///
 /// # Panics
 ///
 /// This function panics if `errors.len()` is smaller than `signal.len()`.
 #[allow(clippy::collapsible_else_if)]
-pub fn compute_error(qps: &QuantizedParameters, signal: &[i32], errors: &mut [i32]) {
+pub fn compute_error(qps: &QuantizedParameters, signal: &[i32], errors: &mut [i32]) -> bool {
     assert!(errors.len() >= signal.len());
     let maxabs_signal: u64 = find_max_abs::<16>(signal).into();
     // `Simd::reduce_sum` is avoided to mitigate overflow error.
@@ -388,22 +392,23 @@ pub fn compute_error(qps: &QuantizedParameters, signal: &[i32], errors: &mut [i3
         });
         acc
     };
-    let maxabs = maxabs_signal * sumabs_coefs as u64;
+    // bound for the prediction and for `signal[t] - prediction`.
+    let maxabs = maxabs_signal * (sumabs_coefs as u64 + 1);
     if maxabs < i32::MAX as u64 {
         // larger lanes here can alleviate inefficiency of unaligned reads.
         compute_error_impl::<i32, 64>(qps, signal, errors);
+        true
     } else {
         // This is very inefficient, but should rarely happen in BPS=16bit case.
         let signal64: Vec<i64> = signal.iter().map(|v| (*v).into()).collect();
         let mut errors64 = vec![0i64; signal64.len()];
         compute_error_impl::<i64, 64>(qps, &signal64, &mut errors64);
-        for (v, p) in errors64
-            .into_iter()
-            .map(|v| v as i32)
-            .zip(errors.iter_mut())
-        {
-            *p = v;
+        let mut fits = true;
+        for (v, p) in errors64.into_iter().zip(errors.iter_mut()) {
+            fits &= v.unsigned_abs() <= i32::MAX as u64;
+            *p = v as i32;
         }
+        fits
     }
 }
 
